@@ -1,7 +1,180 @@
-"""TLC side of check_rt.py (stub, filled in below)."""
-RULE = {"C16": "", "C17": ""}
-ASSUMPTIONS = {"C16": [], "C17": []}
+"""TLC side of check_rt.py: exhaustive model checking of the level-B models (PushQueue.tla, RealTime.tla) against the
+level-A invariants, and conversion of their simulated behaviours into driver scenarios (schedule replay, timer scripts)."""
+import json
+
+import hg
+
+RULE = {
+    "C16": ("PushQueue.tla (level B: every critical section of try_send / send_blocking / try_pop / take_all / conflating policy / "
+            "mark+reset push pending / stop is one action; policy, capacity, producer kinds and the stop moment are chosen by TLC) is "
+            "model-checked exhaustively on the bounded instance against the level-A invariants (delivered is a prefix of accepted, once "
+            "per cycle, capacity bound at every step, refusals only when full or stopped, nothing accepted after stop, the loop never "
+            "sleeps on accepted values) and, under weak fairness, for eventual delivery.  Binding: TLC-simulated interleavings are "
+            "replayed through the pre-lock gates of the real code (critical-section granularity) and seeded free-running stress runs "
+            "(1-4 producers, try/blocking, queue/burst/conflating, capacity 0/1/2/3/16, stopper thread, stop from the sink) are all "
+            "validated event by event by PushTrace.tla (level A) over sequence-numbered hook events.  exhaustive=true refers to the "
+            "bounded model instance only; non-trivial = every executed scenario has at least one send; distinct = distinct scenario text "
+            "without its seed."),
+    "C17": ("RealTime.tla (level B: advance_realtime split into ReadWall / Lock / Check / WaitSlice / Notified|Spurious|SliceTimeout / "
+            "Compute, mark_push and request_stop as set-under-mutex then notify, the wall clock advanced by the environment by any amount, "
+            "timer nodes adding relative wake-ups and wall-clock alarms incl. already-due ones) is model-checked exhaustively on the bounded "
+            "instance against the level-A invariants (time strictly increases, never ahead of the wall clock except the previous+1 floor, "
+            "nothing scheduled before the end skipped or dropped except by stop / the drain cut, at most the current cycle after a stop "
+            "request, no lost notification) and, under fairness, for termination.  Binding: scenarios derived from simulated behaviours "
+            "of the model, random timer scripts (relative, absolute, wall-clock, already-due alarms, injected clock jumps past the target "
+            "and past the end, busy re-scheduling through the drain bound), pushes and stop requests from other threads, and replayed "
+            "stop/push interleavings, run on the real executor and validated by RtTrace.tla (level A; only lower bounds on wall time).  "
+            "exhaustive=true refers to the bounded model instance only."),
+}
+ASSUMPTIONS = {
+    "C16": ["interleavings finer than the hooked critical sections (unsynchronised reads) are outside the model",
+            "'stopped' as a justification of a refusal = a stop request has been issued, the source is closing or it has stopped; "
+            "'after stop' for admission = after the source cleared its accepting flag (DESIGN 6.2 reading, see agent_rt_report.md)",
+            "eventual delivery on a finite trace = the loop never completes a wait by timeout while accepted values are pending, no "
+            "admitting send is in flight and no stop has been requested"],
+    "C17": ["only lower bounds on wall time are asserted (wall >= T); wall readings are taken by the driver after the executor's decision",
+            "the monotonic floor previous+1 is accepted as documented; a run may return one smallest step before the wall clock reaches "
+            "the end when that floor reaches the end time",
+            "a lost condition-variable notification that only delays a wake-up by one wait slice is not observable without an upper bound "
+            "on time; it is covered by the model (set under the mutex, then notify) only"],
+}
+
+
+def _tlc(chk, module, cfg, label, **kw):
+    res = hg.tlc(module, cfg, **kw)
+    if res.violation:
+        raise hg.MachineryError("%s with %s violates its own invariants (spec defect, not a finding about /repo):\n%s" % (module, cfg, res.violation[:3000]))
+    chk.add_tlc(res, label)
+    return res
+
+
 def model_check(pid, chk, quick):
-    pass
+    if pid == "C16":
+        _tlc(chk, "MCPushQueue", "PushQueue.quick.cfg" if quick else "PushQueue.thorough.cfg", "PushQueue-exhaustive", env={"PQ_MUTANT": "none"}, timeout=3000)
+        if not quick:
+            _tlc(chk, "MCPushQueue", "PushQueue.live.cfg", "PushQueue-liveness", env={"PQ_MUTANT": "none"}, timeout=3000)
+    else:
+        _tlc(chk, "MCRealTime", "RealTime.quick.cfg" if quick else "RealTime.thorough.cfg", "RealTime-exhaustive", timeout=3000)
+        _tlc(chk, "MCRealTime", "RealTime.noend.cfg", "RealTime-idle-run-exhaustive", timeout=3000)
+        if not quick:
+            _tlc(chk, "MCRealTime", "RealTime.live.cfg", "RealTime-liveness", timeout=3000)
+
+
+# ------------------------------------------------------------------------------------------ PushQueue behaviours -> replay scenarios
 def replay_scenarios(pid, chk, quick, Scn):
-    return []
+    nsim = (60 if quick else 1500)     # per TLC simulation worker (8 workers)
+    cfg = "PushQueue.replay.cfg" if pid == "C16" else "PushQueue.replay17.cfg"
+    sim = hg.tlc("MCPushQueue", cfg, workers=8, simulate="num=%d" % nsim, depth=300, timeout=900 if not quick else 120,
+                 extra=["-seed", str(hg.seed())], env={"PQ_MUTANT": "none"})
+    if sim.violation:
+        raise hg.MachineryError("PushQueue.tla violates its invariants in simulation:\n" + sim.violation[:3000])
+    behs = hg.printed_json(sim, "PQ")
+    chk.notes["simulated_interleavings"] = len(behs)
+    out, seen = [], set()
+    limit = 150 if quick else 3000
+    for k, b in enumerate(behs):
+        key = json.dumps([b["policy"], b["cap"], b["kinds"], b["sched"]])
+        if key in seen or len(b["sched"]) < 6:
+            continue
+        seen.add(key)
+        kinds = b["kinds"] if isinstance(b["kinds"], list) else [b["kinds"][str(i + 1)] for i in range(len(b["kinds"]))]
+        s = Scn("%sreplay%d" % (pid.lower(), k),
+                {"seed": 1, "end_us": 3000000, "slice_us": 50000, "jitter": 0, "start_us": 0, "watchdog_ms": 12000, "mode": "replay"},
+                srcs=[{"policy": b["policy"], "cap": b["cap"], "stopafter": 0}],
+                prods=[{"pid": i + 1, "src": 0, "kind": kd, "n": b["msgs"], "gap_us": 0, "retries": 0} for i, kd in enumerate(kinds)],
+                stopper=0, sched=[(th, g) for th, g in b["sched"]])
+        s.predicted = {"accepted": [(v // 10) * 1000 + (v % 10) - 1 for v in b["accepted"]],
+                       "delivered": [[(v // 10) * 1000 + (v % 10) - 1 for v in d["vals"]] for d in b["delivered"]]}
+        out.append(s)
+        if len(out) >= limit:
+            break
+    return out
+
+
+def replay_drift(scn, tr):
+    """level B prediction of a replayed interleaving: the admission order and the deliveries. None = as predicted."""
+    if any(e["e"] == "sched" and e["diverged"] for e in tr):
+        return None   # counted separately
+    acc = [e["v"] for e in tr if e["e"] == "h" and e["p"] in ("pq_accepted", "cf_accepted")]
+    dlv = [e["vals"] for e in tr if e["e"] == "dlv"]
+    if acc != scn.predicted["accepted"] or dlv != scn.predicted["delivered"]:
+        return "admission order %s / deliveries %s, PushQueue.tla predicted %s / %s" % (acc, dlv, scn.predicted["accepted"], scn.predicted["delivered"])
+    return None
+
+
+# ------------------------------------------------------------------------------------------ RealTime behaviours -> timer scenarios
+UNIT = 300   # microseconds per model time unit
+
+
+def model_scenarios(chk, quick, Scn):
+    nsim = 40 if quick else 800       # per TLC simulation worker (8 workers)
+    parts = []
+    for cfg in ("RealTime.sim.cfg", "RealTime.simnostop.cfg"):     # with a stopper thread / run to the end time
+        sim = hg.tlc("MCRealTime", cfg, workers=8, simulate="num=%d" % nsim, depth=120, timeout=900 if not quick else 120,
+                     extra=["-seed", str(hg.seed())])
+        if sim.violation:
+            raise hg.MachineryError("RealTime.tla violates its invariants in simulation:\n" + sim.violation[:3000])
+        parts.append(hg.printed_json(sim, "RT"))
+    n = min(len(parts[0]), len(parts[1]))
+    behs = [x for pair in zip(parts[0], parts[1]) for x in pair] + parts[0][n:] + parts[1][n:]
+    chk.notes["simulated_realtime_behaviours"] = len(behs)
+    out, seen = [], set()
+    limit = 100 if quick else 2500
+    for k, b in enumerate(behs):
+        key = json.dumps(b["script"])
+        if key in seen:
+            continue
+        seen.add(key)
+        init = b["script"][0]
+        wall0 = init["t"]
+        pend = set(init["s"])
+        if not pend:
+            continue
+        acts = [["abs.%d" % (t * UNIT) for t in sorted(pend)]]
+        lag, pushes, stop_at, predict, exact = 0, 0, None, [], True
+        for e in b["script"][1:]:
+            if e["k"] == "tick":
+                if e["d"] >= 2:
+                    lag += e["d"]
+            elif e["k"] == "push":
+                pushes += 1
+            elif e["k"] == "stop":
+                stop_at = e["t"]
+                exact = False
+            elif e["k"] == "cycle" and e["t"] in pend:
+                pend.discard(e["t"])
+                predict.append(e["t"] * UNIT)
+                ops = []
+                if lag:
+                    ops.append("lag.%d" % (lag * UNIT))
+                    lag = 0
+                if e["req"] == "rel":
+                    ops.append("rel.%d" % (e["d"] * UNIT))
+                    pend.add(e["t"] + e["d"])
+                elif e["req"] == "wall":
+                    ops.append("wall.%d" % (e["d"] * UNIT if e["d"] > 0 else -40))
+                    exact = False
+                acts.append(ops)
+        if b["cut"]:
+            exact = False      # the model's drain bound is 2, the code's 1024
+        s = Scn("c17model%d" % k,
+                {"seed": 1 + k, "end_us": b["end"] * UNIT, "slice_us": 2 * UNIT, "jitter": 0, "start_us": -wall0 * UNIT, "watchdog_ms": 10000},
+                srcs=[{"policy": "queue", "cap": 0, "stopafter": 0}] if pushes else [],
+                prods=[{"pid": 1, "src": 0, "kind": "try", "n": pushes, "gap_us": UNIT, "retries": 0}] if pushes else [],
+                timers=[{"tid": 0, "acts": acts}],
+                stopper=None if stop_at is None else max(0, (stop_at - wall0)) * UNIT)
+        # level B prediction: with logical requests only the timer is evaluated at exactly these times (the wall clock does not matter)
+        s.predicted = predict + sorted(t * UNIT for t in pend if t < b["end"]) if exact else None
+        out.append(s)
+        if len(out) >= limit:
+            break
+    return out
+
+
+def model_drift(scn, tr):
+    if getattr(scn, "predicted", None) is None:
+        return None
+    got = [e["t"] for e in tr if e["e"] == "tev"]
+    if got != scn.predicted:
+        return "timer evaluated at %s, RealTime.tla predicted %s" % (got, scn.predicted)
+    return None
